@@ -485,11 +485,10 @@ def checkTgen (e : Env) (ip : List (Name × Ty)) : Nat → Nat → List Ty → T
     match c with
     | .prim .table | .prim .global => .ok
     | .tgen cps =>
-      match ps, cps.toList with
-      | [k, v], [ck, cv] =>
-        (withNext lvl fun l => checkGeneral e ip f l k ck).andThen fun _ =>
-          withNext lvl fun l => checkGeneral e ip f l v cv
-      | _, _ => .notMatch
+      -- equal arities are compared parameter by parameter (`table<K,V>` and the odd `table<X>`)
+      if ps.length = cps.toList.length then
+        allOk (fun (p : Ty × Ty) => withNext lvl fun l => checkGeneral e ip f l p.1 p.2) (ps.zip cps.toList)
+      else .notMatch
     | .array cb =>
       match ps with
       | [k, v] =>
